@@ -814,7 +814,7 @@ def run(ctx):
         return enumerate_overlay(ctx, shapes, ovs, "MC_overlay")
 
     def m_overlay33():
-        return enumerate_overlay(ctx, [(3, 3), (2, 4), (4, 2)], ovs33, "MC_overlay33") if ovs33 else ([], None)
+        return enumerate_overlay(ctx, [(3, 3)], ovs33, "MC_overlay33") if ovs33 else ([], None)
 
     def m_curve():
         cfg = CFG_HEAD.format(depth=0, alias="FALSE") + "SPECIFICATION GSpec\n" + "".join(f"INVARIANT {i}\n" for i in G_INVARIANTS)
@@ -920,7 +920,7 @@ def run(ctx):
     ties = sum(1 for it in items if it["kind"] == "ov" and "overlay" in it["emit"] and not no_tie(it["w"], it["u"], it["s0"], it["s1"]))
     ctx.note(f"phases: bounded machines {t1 - t0:.1f}s, real API + abstraction {t2 - t1:.1f}s, trace validation {time.time() - t2:.1f}s")
     ctx.note(f"overlay machine: every non-empty mask of the frames with <= {mc} cells x overlay shapes 1x1..{b['overlay_shapes_up_to'][0]}x{b['overlay_shapes_up_to'][1]}"
-             f"{' + 3x3 / 2x4 / 4x2 frames x shapes up to 3x4' if ovs33 else ''}: {n_enum_inst} (mask, shape) instances without a point on a pixel "
+             f"{' + the 3x3 frame x shapes up to 3x4' if ovs33 else ''}: {n_enum_inst} (mask, shape) instances without a point on a pixel "
              f"boundary, 6 actions each; curve machine: every rectangle up to {G}x{G} and the 193x193 curve of the Hilbert mesh; history machine: "
              f"{len(hists)} call orders of depth {b['history_depth']} (+ the aliased-cache design as a negative control, violated as it must). "
              f"{len(items) - n_enum_inst} further seeded instances ({ties} overlays with points exactly on pixel boundaries, judged two-sidedly); records by api: {by}")
